@@ -76,6 +76,9 @@ pub struct NestedOpts {
 
 thread_local! {
     static SEQ_BUDGET: std::cell::Cell<usize> = std::cell::Cell::new(usize::MAX);
+    /// set by the counting visitors (the error text alone must not be trusted: the input may
+    /// contain the marker string — a libFuzzer campaign produced exactly that)
+    static SEQ_OVERRUN: std::cell::Cell<bool> = std::cell::Cell::new(false);
 }
 pub const UNBOUNDED: &str = "QXV-UNBOUNDED-SEQUENCE";
 
@@ -97,6 +100,7 @@ impl<'de, T: Deserialize<'de>> Deserialize<'de> for Bounded<T> {
                 while let Some(x) = a.next_element::<T>()? {
                     out.push(x);
                     if out.len() > budget {
+                        SEQ_OVERRUN.with(|f| f.set(true));
                         return Err(serde::de::Error::custom(UNBOUNDED));
                     }
                 }
@@ -123,6 +127,7 @@ impl<'de> Deserialize<'de> for BoundedMap {
                     let _v: Bounded<Option<IgnoredAny>> = a.next_value()?;
                     n += 1;
                     if n > budget {
+                        SEQ_OVERRUN.with(|f| f.set(true));
                         return Err(serde::de::Error::custom(UNBOUNDED));
                     }
                 }
@@ -356,9 +361,10 @@ pub fn try_de_debug(t: &Target, xml: &str, via: Option<Vec<usize>>) -> Result<St
 pub fn check(c: &Case) -> Verdict {
     // the call itself runs under the engine's catch_unwind
     SEQ_BUDGET.with(|b| b.set(c.input.len() + 16));
+    SEQ_OVERRUN.with(|f| f.set(false));
     let res = try_de(&c.target, &c.input, c.via_reader);
-    if let Err(e) = &res {
-        if e.contains(UNBOUNDED) {
+    if res.is_err() {
+        if SEQ_OVERRUN.with(|f| f.get()) {
             return Verdict::fail(format!("a sequence/map yielded more items than the input has bytes ({}): deserialization does not terminate | target {:?} | input {:?}", c.input.len(), c.target, c.input));
         }
     }
